@@ -27,11 +27,11 @@ type c15Tag struct {
 }
 
 type c15Field struct {
-	name    string
-	ty      string // "**[]*i8"
-	hasDef  bool
-	dflt    []byte
-	tags    []c15Tag
+	name   string
+	ty     string // "**[]*i8"
+	hasDef bool
+	dflt   []byte
+	tags   []c15Tag
 }
 
 type c15KV struct{ k, v []byte }
@@ -88,7 +88,13 @@ func (c *c15Case) tokens(mode string) []string {
 func c15Parse(a []string) *c15Case {
 	i := 0
 	next := func() string { s := a[i]; i++; return s }
-	num := func() int { n, err := strconv.Atoi(next()); if err != nil { panic("c15: bad count") }; return n }
+	num := func() int {
+		n, err := strconv.Atoi(next())
+		if err != nil {
+			panic("c15: bad count")
+		}
+		return n
+	}
 	c := &c15Case{}
 	nf := num()
 	for ; nf > 0; nf-- {
@@ -937,5 +943,73 @@ func genC15(tier string, rng *Rng) {
 			emit(cases[k].tokens("p"), outs[k])
 		}
 	}
+	// warm-cache hammer: several goroutines bind a few already-cached types in a tight loop on ONE binder; every result
+	// must be the result a single sequential bind gives (cache_transparent / pure_function say the outcome is a function
+	// of type and request only). A case is emitted per goroutine with the first deviating output, if any.
+	nHam, iters := 6, 4000
+	if tier == "thorough" {
+		nHam, iters = 60, 20000
+	}
+	for i := 0; i < nHam; i++ {
+		binder := binding.NewDefaultBinder(nil)
+		const par = 8
+		var cases [par]*c15Case
+		var want, got [par][]string
+		base := c15RandStruct(rng, false)
+		for k := 0; k < par; k++ {
+			fs := base
+			if k%2 == 1 {
+				// same layout (names and types), other sources: a mixed-up decoder fills the value from the wrong place
+				fs = c15Retag(rng, base)
+			}
+			cases[k] = &c15Case{fields: fs, req: c15RandReq(rng, fs, false)}
+			want[k] = c15Bind(cases[k], binding.NewDefaultBinder(nil))
+			c15Bind(cases[k], binder) // warm
+		}
+		var wg sync.WaitGroup
+		start := make(chan struct{})
+		for k := 0; k < par; k++ {
+			wg.Add(1)
+			go func(k int) {
+				defer wg.Done()
+				<-start
+				got[k] = want[k]
+				for j := 0; j < iters; j++ {
+					o := c15Bind(cases[k], binder)
+					if strings.Join(o, " ") != strings.Join(want[k], " ") {
+						got[k] = o
+						return
+					}
+				}
+			}(k)
+		}
+		close(start)
+		wg.Wait()
+		for k := 0; k < par; k++ {
+			emit(cases[k].tokens("p"), got[k])
+		}
+	}
 	_ = fmt.Sprint
+}
+
+// c15Retag keeps names and types of the fields and moves every tag to another text source with another key.
+func c15Retag(rng *Rng, fs []c15Field) []c15Field {
+	ring := []string{"query", "header", "form", "cookie"}
+	k := 1 + rng.Intn(3)
+	out := make([]c15Field, len(fs))
+	for i, f := range fs {
+		g := f
+		g.tags = nil
+		for _, t := range f.tags {
+			src := t.src
+			for j, r := range ring {
+				if r == t.src {
+					src = ring[(j+k)%4] // a rotation keeps the source keys of one field distinct
+				}
+			}
+			g.tags = append(g.tags, c15Tag{src, t.content})
+		}
+		out[i] = g
+	}
+	return out
 }
